@@ -77,12 +77,20 @@ def adj1 (top : Nat) (merged : List MPub) : Nat :=
 def latestOf (top : Nat) (merged : List MPub) (maxSeen : Nat) : Nat :=
   if maxSeen > adj1 top merged then maxSeen else adj1 top merged
 
+/-- after a successful stream recovery, buffered publications at or below the requested offset
+(lagging PUB/SUB copies of what the client already holds) are dropped (`slices.DeleteFunc`, only
+when something was buffered) -/
+def dropStale (reqOffset : Nat) (buffered merged : List MPub) : List MPub :=
+  if buffered.isEmpty then merged else merged.filter (fun p => decide (reqOffset < p.offset))
+
 /-- merge with the buffered publications, compute the reply and the committed position -/
 def finish (req : Req) (h : Hist) (r : Option (List MPub)) (buffered : List MPub) : Outcome :=
   match merge (r.getD []) buffered with
   | none => .insufficient
   | some (merged, maxSeen) =>
-    if r.isSome then .reply true merged req.offset (latestOf h.top merged maxSeen) h.epoch
+    if r.isSome then
+      let pubs := dropStale req.offset buffered merged
+      .reply true pubs req.offset (latestOf h.top pubs maxSeen) h.epoch
     else .reply false [] (latestOf h.top merged maxSeen) (latestOf h.top merged maxSeen) h.epoch
 
 /-- the positioned branch of `subscribeCmd`; `buffered` = `LockBufferAndReadBuffered` result -/
